@@ -30,6 +30,12 @@ def run(ck):
     ck.mc("MCThreads", "C18_mc_via.cfg", workers=8, timeout=1200)       # references released by containers that held them
     for m in ASF:
         ck.mc_must_fail("MCThreads", "C18_asfound_%s.cfg" % m, workers=4, timeout=600)
+    # unbounded histories (any number of get / put by 3 threads, counts in the integers): an inductive invariant checked by Apalache -
+    # base case, inductive step, invariant => property; with load-and-store puts the invariant is not inductive
+    ck.prove("RefCountInd", "CInit", "Init", "IndInv", 0)
+    ck.prove("RefCountInd", "CInit", "IndInv", "IndInv", 1)
+    ck.prove("RefCountInd", "CInit", "IndInv", "Safety", 0)
+    ck.prove("RefCountInd", "CInitBad", "IndInv", "IndInv", 1, must_fail=True)
     exe = vlib.build("thr", ["vhthr.c", "vhrt.c"], "vhthr", repo_cflags=SEEDDEF, objtag="-c18")
     tsan = vlib.build("tsan", ["vhthr.c", "vhrt.c"], "vhthr", repo_cflags=SEEDDEF, objtag="-c18")
     m = 4000000 if thorough else 200000
